@@ -1,8 +1,8 @@
 #!/bin/bash
 # runs every check's thorough tier sequentially with a per-check budget; log in .work/thorough.log
 cd /verif
-: > .work/thorough.log
-for c in C20 C17 C16 C01 C02 C04 C15 C12 C09 C19 C18 C07 C13 C11 C10 C03 C06 C05 C08 C14; do
+[ $# -eq 0 ] && : > .work/thorough.log
+for c in ${@:-C20 C17 C16 C01 C02 C04 C15 C12 C09 C19 C18 C07 C13 C11 C10 C03 C06 C05 C08 C14}; do
   s=$(date +%s)
   out=$(VERIF_BUDGET_S=${BUDGET:-900} VERIF_HARD_TIMEOUT=1500 ./run.sh $c thorough 2>&1 | tail -3 | cut -c1-300)
   e=$(date +%s)
